@@ -564,6 +564,11 @@ class _CountingSocket(FakeConnSocket):
     def close(self):
         self.closed_calls += 1
 
+    def bind(self, address):
+        # reached only when connect() is given a source address (cfg with a "binderr" mode)
+        if self.owner._mode(self.idx) == "binderr":
+            raise OSError(errno.EADDRINUSE, "Address already in use")
+
 
 class ConnectorReal:
     """The real TCPClient.connect -> _Connector -> _create_stream -> IOStream.connect over scripted
@@ -681,6 +686,8 @@ class ConnectorReal:
             kw = {}
             if self.cfg["ct"]:
                 kw["timeout"] = self.CT[self.cfg["ct"]]
+            if "binderr" in self.cfg["mode"]:
+                kw["source_port"] = 4321        # makes _create_stream bind every socket it creates
             self.t0 = self.env.now
             self.fut = self.asyncio.ensure_future(self.client.connect("example.invalid", 80, **kw), loop=self.env.loop)
         elif act == "succeed":
@@ -721,7 +728,7 @@ def replay_conn(extra, path, variant=None, index=None):
                 modes = sorted(set(cfg["mode"]))
                 return {"step": i, "act": s["act"], "args": s["args"], "exp": s["exp"], "obs": obs,
                         "sig": {"act": s["act"], "modes": modes, "module": "Connector",
-                                "create_failure": any(m in ("sockerr", "streamerr") for m in modes), "exp_res": s["exp"]["res"][:2] if s["exp"]["res"][0] != "ok" else ["ok"],
+                                "create_failure": any(m in ("sockerr", "streamerr", "binderr") for m in modes), "exp_res": s["exp"]["res"][:2] if s["exp"]["res"][0] != "ok" else ["ok"],
                                 "obs_res": obs["res"][:2] if obs["res"][0] != "ok" else ["ok"], "obs_class": cls or "none",
                                 "sock_differs": obs["sock"] != s["exp"]["sock"],
                                 "leak": any(o in ("connecting", "connected") and e in ("closed", "none")
